@@ -16,10 +16,21 @@ package benchtab
 //@ pure func residueOK(c *builderCell) bool = forall k1 benchproc.Key, k2 benchproc.Key :: has(c.residue, k1) && has(c.residue, k2) ==>
 //@     k1.k != nil && k1.k.proj != nil && k1.k.proj == k2.k.proj
 
+// mapKeys: the keys of the set (all from one projection), each of them and nothing else.
+//@ pure func keySetOK(m map[benchproc.Key]struct{}) bool = forall k1 benchproc.Key, k2 benchproc.Key :: has(m, k1) && has(m, k2) ==>
+//@     k1.k != nil && k1.k.proj != nil && k1.k.proj == k2.k.proj
 //@ func mapKeys(m map[benchproc.Key]struct{}) (r []benchproc.Key)
-//@   trusted
-//@   ensures len(r) == len(m) && (r == nil || fresh(r))
+//@   props C14
+//@   opt allocates
+//@   requires keySetOK(m)
+//@   modifies heap(benchproc.Projection)
+//@   ensures r == nil || fresh(r)
 //@   ensures forall i int :: 0 <= i < len(r) ==> has(m, r[i])
+//@   ensures forall k benchproc.Key :: has(m, k) ==> exists i int :: 0 <= i < len(r) && r[i] == k
+//@   loop 1:
+//@     invariant unchanged() && (keys == nil || fresh(keys))
+//@     invariant forall i int :: 0 <= i < len(keys) ==> has(m, keys[i])
+//@     invariant forall k benchproc.Key :: visited(k) ==> exists i int :: 0 <= i < len(keys) && keys[i] == k
 
 // A cell's summary is the unit's assumption applied to the cell's own sample,
 // and its comparison is that assumption applied to (baseline sample, own
